@@ -21,7 +21,7 @@ def http_port(proto):
 
 def consts(**kw):
     c = {"HttpTcp": http_port("tcp"), "HttpUdp": http_port("udp"), "HttpAny": http_port(None),
-         "NodeIdx": set(range(1, 14)), "ServIdx": {2}, "FamSet": {0, 2, 10}, "SockIdx": {2}, "FlagIdx": {1}, "CacheOn": False,
+         "NodeIdx": set(range(1, 16)), "ServIdx": {2}, "FamSet": {0, 2, 10}, "SockIdx": {2}, "FlagIdx": {1}, "CacheOn": False,
          "AgeSet": {5}, "Fam2Set": {0}}
     c.update({k: (set(v) if isinstance(v, (list, tuple, range, set)) else v) for k, v in kw.items()})
     return c
@@ -54,7 +54,13 @@ def reply(name, qtype, ans):
             rd = socket.inet_pton(socket.AF_INET if qtype == 1 else socket.AF_INET6, a)
             rrs.append(b"\xc0\x0c" + qtype.to_bytes(2, "big") + b"\0\1" + ans["ttl"].to_bytes(4, "big") + len(rd).to_bytes(2, "big") + rd)
     rcode = 3 if ans["k"] == "nx" else 0
-    return (b"\0\0" + bytes([0x81, 0x80 | rcode]) + b"\0\1" + len(rrs).to_bytes(2, "big") + b"\0\0\0\0" + q + b"".join(rrs)).hex()
+    auth = b""
+    if ans.get("soa"):
+        t = ans["soa"].to_bytes(4, "big")
+        rd = b"\2ns\xc0\x0c" + b"\2hm\xc0\x0c" + (1).to_bytes(4, "big") + (3600).to_bytes(4, "big") + (600).to_bytes(4, "big") + (86400).to_bytes(4, "big") + t
+        auth = b"\xc0\x0c" + (6).to_bytes(2, "big") + b"\0\1" + t + len(rd).to_bytes(2, "big") + rd
+    return (b"\0\0" + bytes([0x81, 0x80 | rcode]) + b"\0\1" + len(rrs).to_bytes(2, "big") + (b"\0\1" if auth else b"\0\0") + b"\0\0" +
+            q + b"".join(rrs) + auth).hex()
 
 
 def zone_rules(zone):
@@ -125,12 +131,13 @@ def classify(s, i, diffs):
         return KEY_NUMERIC
     if i == 1:
         l1 = s["l"][0]
-        ttl = {"dual.test": {2: 300, 10: 10}, "cn.test": {2: 120, 10: 120}}.get(l["node"]["n"], {})
+        ttl = {"dual.test": {2: 300, 10: 10}, "cn.test": {2: 120, 10: 120}, "neg6.test": {2: 20}, "neg4.test": {10: 20}}.get(l["node"]["n"], {})
         asked1 = [f for f in (2, 10) if l1["fam"] in (0, f)]
         asked2 = [f for f in (2, 10) if l["fam"] in (0, f)]
         fam_cover = all(f in asked1 for f in asked2)
-        within_all = all(s["age"] < ttl.get(f, 0) for f in asked1)
-        within_some = any(s["age"] < ttl.get(f, 0) for f in asked1)
+        pos = [f for f in asked1 if f in ttl]                    # families that were answered positively
+        within_all = bool(pos) and all(s["age"] < ttl[f] for f in pos)
+        within_some = any(s["age"] < ttl[f] for f in pos)
         if within_some and not fam_cover:
             return KEY_FAMILY                 # cached data of another family shadows the question that was never asked
         if within_all and fam_cover and l["fl"]["canon"] and l1["fl"]["canon"] and ("entries" in d or "addresses" in d or "error -" in d):
@@ -149,7 +156,7 @@ def run(tier, seed):
         ("C38_product", consts(ServIdx={1, 2, 3} if q else range(1, 7), SockIdx={1, 2, 3} if q else range(1, 7),
                                FlagIdx={1, 2, 3, 4} if q else range(1, 7))),
         # cache: two lookups of the same name, zone changed in between, ages before / between / after the TTLs
-        ("C38_cache", consts(CacheOn=True, NodeIdx={6, 8}, AgeSet={5, 60, 400}, Fam2Set={0, 2, 10})),
+        ("C38_cache", consts(CacheOn=True, NodeIdx={6, 8, 14, 15}, AgeSet={5, 60, 400}, Fam2Set={0, 2, 10})),
     ]
     if q:
         pass
@@ -184,13 +191,53 @@ def run(tier, seed):
                               (i, l["node"]["n"] or "NULL", l["serv"]["s"] or "NULL", l["fam"], l["st"], l["pr"],
                                "".join(k[0] for k, v in l["fl"].items() if v) or "-", (" age=%ds" % s["age"]) if i else "", " | ".join(diffs)),
                               {"scenario": sc, "prediction": s["exp"], "actual": o}, key=classify(s, i, diffs))
+    # --- fan-out timing: the A and AAAA sub-requests of one PF_UNSPEC lookup race with the getaddrinfo-allow-skew timer (3 s).
+    # One family is answered at once, the answer of the other is held and released -- datagram readable, clock set -- just
+    # before / exactly at / just after the skew deadline, optionally together with evdns_getaddrinfo_cancel.  Whatever wins,
+    # the user callback runs exactly once, with the first family's addresses and possibly the second's.
+    zone1 = specs[0]["zones"][0]
+    dual = [z for z in zone1 if z["n"] == "dual.test"][0]
+    fan, fexp = [], []
+    for held, t in (("aaaa", 28), ("a", 1)):
+        for rel in (2999, 3000, 3001, 1500):
+            for cancel in (0, 1):
+                rules = zone_rules(zone1)
+                for r in rules:
+                    if r["n"] == "dual.test" and r["t"] == t:
+                        r["close_at"] = -2
+                lk = {"node": "dual.test", "serv": "80", "family": 0, "socktype": 1, "proto": 0, "flags": 0, "zone": 0, "advance_ms": 0,
+                      "release_ms": rel, "cancel": cancel}
+                fan.append({"mode": "gai", "dir": dc.TMP, "hosts": "", "zones": [rules], "lookups": [lk], "base_flags": 0x10})   # EVDNS_BASE_NO_CACHE
+                e4 = [[2, a, 80, 1, 6] for a in dual["a"]["addrs"]]
+                e6 = [[10, a, 80, 1, 6] for a in dual["aaaa"]["addrs"]]
+                first = e4 if held == "aaaa" else e6
+                alts = [{"k": "ok", "ents": first, "canon": [""], "q4": True, "q6": True}, {"k": "ok", "ents": e4 + e6, "canon": [""], "q4": True, "q6": True}]
+                if cancel:
+                    alts.append({"k": "err", "q4": True, "q6": True})
+                fexp.append(alts)
+    fouts = vkit.run_driver(exe, fan, timeout=600)
+    for sc, alts, o in zip(fan, fexp, fouts):
+        chk.count_case(sc["lookups"], nontrivial=True)
+        chk.cov["traces_validated_against_impl"] += 1
+        lk = sc["lookups"][0]
+        if o is None or "crash" in o or o.get("leak"):
+            chk.violation("C38 fan-out (held answer released at %d ms, cancel=%d): crash / sanitizer / leak: %s" % (lk["release_ms"], lk["cancel"], str(o)[-900:]),
+                          {"scenario": sc, "actual": o})
+            continue
+        r = o["res"][0]
+        l0 = {"st": 1, "pr": 0, "serv": {"s": "80", "k": "num"}}
+        diffs = [match(e, r, 1, 1, l0) for e in alts]
+        if all(diffs):
+            chk.violation("C38 fan-out (held answer released at %d ms, cancel=%d): %s" % (lk["release_ms"], lk["cancel"], " | ".join(diffs)),
+                          {"scenario": sc, "admissible": alts, "actual": o})
+    kinds["fan-out"] = len(fan)
     chk.cov["verdicts"] = kinds
-    if not kinds["ok"] or not kinds["err"] or not kinds["cached-alt"]:
+    if not kinds["ok"] or not kinds["err"] or not kinds["cached-alt"] or not kinds["fan-out"]:
         raise vkit.InfraError("vacuous corpus %s" % kinds)
     for s in specs[:2] + specs[-1:]:
         chk.sample({"lookups": [lookup_json(l, 0) for l in s["l"]], "age_s": s["age"], "prediction": s["exp"]})
-    chk.cov["rule"] = ("TLC enumerates lookups over 13 nodes (NULL, numeric v4/v6, hosts names, DNS names with A+AAAA / one family / CNAME / "
-                       "NXDOMAIN / one family silent, a name in hosts and DNS) x services (NULL, numeric, named, bad, 65535, 65536) x family x "
+    chk.cov["rule"] = ("TLC enumerates lookups over 15 nodes (NULL, numeric v4/v6, hosts names, DNS names with A+AAAA / one family / CNAME / "
+                       "NXDOMAIN / one family silent / one family negative with a long-lived SOA, a name in hosts and DNS) x services (NULL, numeric, named, bad, 65535, 65536) x family x "
                        "6 socktype/protocol hints x 6 flag sets, and two-lookup cache scenarios (families and AI_CANONNAME of both lookups, "
                        "ages 5/60/400 s against TTLs 10/120/300, zone changed in between); Gai!Expected gives the set of "
                        "(family, address, port, socktype, protocol), the admissible canonical names and whether A / AAAA may be asked; TLC "
